@@ -88,6 +88,13 @@ class VwReadingsS:
     history: tuple[str | bytes, ...] = ()
 
 @dataclasses.dataclass
+class VwKids:
+    """a recursive class whose back-edge is a subscripted generic that is also used as a root"""
+    v: int = 0
+    kids: "list[VwKids]" = dataclasses.field(default_factory=list)
+    by_name: "dict[str, VwKids]" = dataclasses.field(default_factory=dict)
+
+@dataclasses.dataclass
 class VwHook:
     name: str = ""
     on_event: VwTBC = str
@@ -131,6 +138,7 @@ RAW = [
     ("typing.Union[list[vwx.VwXPayee], vwx.VwXPayee]", False), ("tuple[vwx.VwXSelf, list[vwx.VwXSelf], vwx.VwXOwner]", False), ("vwx.VwXOwner", False),
     ("VwTBC", True), ("VwNC", True), ("VwAC", True), ("list[VwTBC]", False), ("typing.Optional[VwNC]", False), ("dict[str, VwAC]", False), ("VwHook", False),
     ("typing.ClassVar[typing.Callable[[int], str]]", True),
+    ("VwKids", False), ("list[VwKids]", False), ("dict[str, VwKids]", False), ("VwKids", False), ("list[VwKids]", False),
     ("VwReadings", False), ("VwReadingsT", False), ("VwReadingsS", False), ("list[VwReadings]", False),
     ("VwTwoDepths", False), ("VwTwoDepthsT", False), ("list[VwScale | None]", False), ("dict[str, VwTwoDepthsT]", False),
     ("VwAnyFields", False), ("VwScale", False), ("list[VwScale]", False), ("VwParent", False), ("VwChild", False), ("VwSelf", False), ("list[VwParent]", False), ("dict[str, VwSelf]", False),
@@ -143,6 +151,8 @@ RAW = [
 PROBES = [None, 1, "a", "1", {"$f": "1.5"}, True, {"$list": [1, "a", None]}, {"$dict": [["a", 1]]}, {"$tuple": [1, 2]}, {"$list": []}, {"$dict": []},
           {"$dict": [["name", "p"], ["children", {"$list": [{"$dict": [["n", 1], ["parent", {"$dict": [["name", "q"], ["children", {"$list": []}]]}]]}]}]]},
           {"$dict": [["v", 1], ["left", {"$dict": [["v", 2], ["left", {"$dict": [["v", 3]]}]]}]]}, {"$dict": [["n", 1], ["parent", {"$dict": [["name", "q"]]}]]},
+          {"$dict": [["v", "1"], ["kids", {"$list": [{"$dict": [["v", 2], ["by_name", {"$dict": [["n", {"$dict": [["v", "3"]]}]]}]]}]}]]},
+          {"$list": [{"$dict": [["v", "1"], ["kids", {"$list": [{"$dict": [["v", 2]]}]}]]}]}, {"$dict": [["k", {"$dict": [["v", 1], ["kids", {"$list": [{"$dict": []}]}]]}]]},
           {"$dict": [["factor", "3"]]}, {"$dict": [["history", {"$list": [1, None, "2"]}], ["latest", "3"]]}, {"$dict": [["by_day", {"$dict": [["mo", "a"]]}], ["latest", "b"], ["history", {"$list": ["c"]}]]}, {"$dict": [["one", {"$dict": [["factor", 2]]}], ["many", {"$list": [{"$dict": [["factor", 3]]}, None]}]]}, {"$dict": [["x", 1], ["n", 2]]}, {"$dict": [["a", 5], ["b", "y"]]}, {"$list": [{"$list": [1]}]}, {"$b": "6162"}, {"$set": [1]}]
 
 
